@@ -401,6 +401,7 @@ impl World {
                 "CSD" => SignedEntityTypeDiscriminants::CardanoStakeDistribution,
                 "CDB" => SignedEntityTypeDiscriminants::CardanoDatabase,
                 "CTX" => SignedEntityTypeDiscriminants::CardanoTransactions,
+                "CBTX" => SignedEntityTypeDiscriminants::CardanoBlocksTransactions,
                 other => panic!("unknown entity type {other}"),
             })
             .collect();
